@@ -357,8 +357,11 @@ def r75(facts, res):
     for bb, t in b.calls():
         if cname(t) in ('index', 'index_mut') and t['args'] and b.op_root(t['args'][0])[0] == V:
             inl = [h for h in loops if bb in loops[h]]
-            if len(inl) >= 2:       # inside a neighbour loop (nested in the main loop)
-                sites.append((bb, t, min(inl, key=lambda h: len(loops[h]))))
+            # inside a neighbour loop (nested in the main loop): the innermost loop around the site draws neighbours from a drain(..)
+            if len(inl) >= 2:
+                h = min(inl, key=lambda h: len(loops[h]))
+                if any('Drain' in (callee_of(nt).get('self_ty') or '') for _nb, nt in b.calls_named('next', loops[h])):
+                    sites.append((bb, t, h))
     if not sites:
         res.lost(R, 'no indexing of the bucket list inside a neighbour loop found')
         return
